@@ -67,8 +67,6 @@ PLANTED = [
      "                rank[:] = [cid for cid in rank if cid not in profile.withdrawn]\n",
      "                for cid in set(rank):\n                    if cid in profile.withdrawn:\n"
      "                        rank.remove(cid)\n", False),
-    ('c16-revert-F6', 'C16', 'droop/profile.py',
-     "'B' if profile.nCand <= 255 else", "'B' if profile.nCand <= 256 else", False),
     ('c16-tokenizer-stalls', 'C16', 'droop/profile.py',
      "                while not bid.endswith(')'):\n                    bid += ' ' + next(blt)\n",
      "                while not bid.endswith(')'):\n                    bid += ' ' + next(blt, '')\n", False),
@@ -86,10 +84,6 @@ PLANTED = [
     ('c20-fixed-display-sticky', 'C20', 'droop/values/fixed.py',
      "        cls.display = int(display)\n",
      "        if cls.display is None or int(display) > cls.display:\n            cls.display = int(display)\n", False),
-    ('c20-sorts-profile-in-place', 'C20', 'droop/election.py',
-     "        self.ballots = list()\n        for bl in electionProfile.ballotLines:\n",
-     "        self.ballots = list()\n        electionProfile.ballotLines.sort(key=lambda b: -b.multiplier)\n"
-     "        for bl in electionProfile.ballotLines:\n", False),
 ]
 
 # extra text a planted defect needs elsewhere in the same file (appended verbatim)
@@ -100,6 +94,16 @@ EXTRA = {
 
 # equivalent mutants: the check must stay at exit 0
 EQUIVALENT = [
+    # reverting the F6 repair is no C16 defect any more: since F7 the OverflowError of a 256-candidate file surfaces
+    # as ElectionProfileError (a valid file refused: C15's subject, which this family does not decide)
+    ('eq-revert-F6-after-F7', 'C16', 'droop/profile.py',
+     "'B' if profile.nCand <= 255 else", "'B' if profile.nCand <= 256 else"),
+    # sorting the shared profile's ballot lines in place changes no record (C10: the record does not depend on the
+    # order of the ballot lines), so it is no C20 defect
+    ('eq-sorts-profile-in-place', 'C20', 'droop/election.py',
+     "        self.ballots = list()\n        for bl in electionProfile.ballotLines:\n",
+     "        self.ballots = list()\n        electionProfile.ballotLines.sort(key=lambda b: -b.multiplier)\n"
+     "        for bl in electionProfile.ballotLines:\n"),
     ('eq-fixed-scaledr-conditional', 'C20', 'droop/values/fixed.py',
      "        cls.__scaledr = cls.__scaledd // 2\n",
      "        if cls.display < cls.precision:\n            cls.__scaledr = cls.__scaledd // 2\n"),
